@@ -189,6 +189,164 @@ theorem cancelOrder_succeeds {cfg : Cfg} {s : State} {a u p i : Nat} {o : Order}
     rw [← hown]; exact this
 
 
+/-! ### cancel-all reaches every old order of the owner in the named pairs, whatever the pair ids -/
+
+theorem pairs_finishOrder {cfg : Cfg} {s s' : State} {k : OKey} {st : OStatus} (h : finishOrder cfg s k st = some s') :
+    s'.pairs = s.pairs := by
+  unfold finishOrder at h
+  split at h; · cases h
+  split at h; · cases h; rfl
+  split at h; · cases h
+  simp only [] at h
+  split at h; · cases h
+  rename_i s1 h1
+  split at h; · cases h
+  rename_i s2 h2
+  cases h
+  show s2.pairs = _
+  rw [(State.send_fields h2).1, (State.send_fields h1).1]
+
+/-- the orders `MsgCancelAllOrders(app, user, pairs)` addresses -/
+def addressed (app user : Nat) (pairs : List Nat) (o : Order) : Prop :=
+  o.app = app ∧ o.owner = user ∧ (pairs = [] ∨ o.pair ∈ pairs)
+
+/-- one step of the cancel-all loop: pairs untouched; the lookup under every OTHER key untouched; under its own key an
+addressed live order of an earlier batch is ended, anything else is left as it is -/
+theorem cancelAllStep_spec {cfg : Cfg} {app user : Nat} {pairs : List Nat} {s s' : State} {k : OKey}
+    (h : cancelAllStep cfg app user pairs s k = some s') :
+    s'.pairs = s.pairs ∧ (∀ k', k' ≠ k → s'.order? k' = s.order? k') ∧
+    (∀ o pp, s.order? k = some o → addressed app user pairs o → s.pair? app o.pair = some pp → o.status.live = true →
+      o.batch < pp.curBatch → ∀ o', s'.order? k = some o' → o'.status.live = false) ∧
+    (∀ o pp, s.order? k = some o → s.pair? app o.pair = some pp → ¬ o.batch < pp.curBatch → s' = s) := by
+  unfold cancelAllStep at h
+  split at h
+  · rename_i hn
+    cases h
+    refine ⟨rfl, fun _ _ => rfl, ?_, ?_⟩
+    · intro o pp ho; rw [hn] at ho; cases ho
+    · intro o pp ho; rw [hn] at ho; cases ho
+  · rename_i o0 ho0
+    split at h
+    · rename_i haddr
+      split at h
+      · rename_i hpn
+        cases h
+        refine ⟨rfl, fun _ _ => rfl, ?_, fun _ _ _ _ _ => rfl⟩
+        intro o pp ho _ hp
+        rw [ho0] at ho; cases ho
+        rw [hpn] at hp; cases hp
+      · rename_i p0 hp0
+        split at h
+        · rename_i hc
+          obtain ⟨l1, l2⟩ := finishOrder_lookup (st := .canceled) rfl h
+          refine ⟨pairs_finishOrder h, l2, fun o pp ho _ _ _ _ => l1, ?_⟩
+          intro o pp ho hp hnb
+          rw [ho0] at ho; cases ho
+          rw [hp0] at hp; cases hp
+          exact absurd hc.2 hnb
+        · rename_i hc
+          cases h
+          refine ⟨rfl, fun _ _ => rfl, ?_, fun _ _ _ _ _ => rfl⟩
+          intro o pp ho _ hp hl hb
+          rw [ho0] at ho; cases ho
+          rw [hp0] at hp; cases hp
+          exfalso; apply hc
+          refine ⟨?_, hb⟩
+          intro e; rw [e] at hl; simp [OStatus.live] at hl
+    · rename_i hna
+      cases h
+      refine ⟨rfl, fun _ _ => rfl, ?_, fun _ _ _ _ _ => rfl⟩
+      intro o pp ho ha
+      rw [ho0] at ho; cases ho
+      exact absurd ha hna
+
+theorem cancelAll_fold {cfg : Cfg} {app user : Nat} {pairs : List Nat} (k : OKey) :
+    ∀ (l : List OKey) (s s' : State), foldOpt (cancelAllStep cfg app user pairs) s l = some s' →
+      s'.pairs = s.pairs ∧
+      -- an addressed live old order under key k is ended if k is in the list (or was already not live)
+      (∀ o pp, s.order? k = some o → addressed app user pairs o → s.pair? app o.pair = some pp → o.status.live = true →
+        o.batch < pp.curBatch → k ∈ l → ∀ o', s'.order? k = some o' → o'.status.live = false) ∧
+      -- an order that is still in its placement batch is not touched
+      (∀ o pp, s.order? k = some o → s.pair? app o.pair = some pp → ¬ o.batch < pp.curBatch → s'.order? k = some o) ∧
+      -- "not live" under k is never undone
+      ((∀ o, s.order? k = some o → o.status.live = false) → ∀ o', s'.order? k = some o' → o'.status.live = false) := by
+  intro l
+  induction l with
+  | nil =>
+    intro s s' h
+    simp [foldOpt] at h; subst h
+    refine ⟨rfl, ?_, fun _ _ ho _ _ => ho, fun hh => hh⟩
+    intro o pp _ _ _ _ _ hk
+    cases hk
+  | cons k1 t ih =>
+    intro s s' h
+    simp only [foldOpt] at h
+    cases hx : cancelAllStep cfg app user pairs s k1 with
+    | none => simp [hx] at h
+    | some s1 =>
+      simp [hx] at h
+      obtain ⟨p1, oth1, own1, keep1⟩ := cancelAllStep_spec hx
+      obtain ⟨p2, a2, b2, c2⟩ := ih s1 s' h
+      have pair1 : ∀ a p, s1.pair? a p = s.pair? a p := by intro a p; simp [State.pair?, p1]
+      refine ⟨p2.trans p1, ?_, ?_, ?_⟩
+      · intro o pp ho ha hp hl hb hk o' ho'
+        by_cases hk1 : k = k1
+        · subst hk1
+          exact c2 (own1 o pp ho ha hp hl hb) o' ho'
+        · have hkt : k ∈ t := by
+            rcases List.mem_cons.mp hk with e | e
+            · exact absurd e hk1
+            · exact e
+          have ho1 : s1.order? k = some o := by rw [oth1 k hk1]; exact ho
+          exact a2 o pp ho1 ha (by rw [pair1]; exact hp) hl hb hkt o' ho'
+      · intro o pp ho hp hnb
+        have ho1 : s1.order? k = some o := by
+          by_cases hk1 : k = k1
+          · subst hk1
+            rw [keep1 o pp ho hp hnb]; exact ho
+          · rw [oth1 k hk1]; exact ho
+        exact b2 o pp ho1 (by rw [pair1]; exact hp) hnb
+      · intro hh o' ho'
+        apply c2 _ o' ho'
+        intro o1 ho1
+        by_cases hk1 : k = k1
+        · subst hk1
+          -- the step on k itself: either unchanged or ended
+          unfold cancelAllStep at hx
+          split at hx
+          · cases hx; exact hh o1 ho1
+          · split at hx
+            · split at hx
+              · cases hx; exact hh o1 ho1
+              · split at hx
+                · exact finishOrder_mono rfl hx hh o1 ho1
+                · cases hx; exact hh o1 ho1
+            · cases hx; exact hh o1 ho1
+        · rw [oth1 k hk1] at ho1; exact hh o1 ho1
+
+/-- **`MsgCancelAllOrders` ends every old order it addresses — in every pair, whatever the order of pair ids — and touches
+no order that is still in its placement batch.** -/
+theorem cancelAll_all {cfg : Cfg} {s s' : State} {app user : Nat} {pairs : List Nat}
+    (h : cancelAll cfg s app user pairs = some s') (k : OKey) (o : Order) (pp : Pair)
+    (ho : s.order? k = some o) (hp : s.pair? app o.pair = some pp) :
+    (addressed app user pairs o → o.status.live = true → o.batch < pp.curBatch →
+      ∀ o', s'.order? k = some o' → o'.status.live = false) ∧
+    (¬ o.batch < pp.curBatch → s'.order? k = some o) := by
+  unfold cancelAll at h
+  split at h; · cases h
+  split at h; · cases h
+  split at h; · cases h
+  obtain ⟨-, a, b, -⟩ := cancelAll_fold k _ _ _ h
+  refine ⟨fun ha hl hb => a o pp ho ha hp hl hb ?_, fun hnb => b o pp ho hp hnb⟩
+  have hm := (order?_some ho).1
+  have hk : o.key = k := by
+    obtain ⟨-, h1, h2, h3⟩ := order?_some ho
+    obtain ⟨x, y, z⟩ := k
+    simp only [Order.key] at *
+    simp [h1, h2, h3]
+  rw [← hk]
+  exact List.mem_map.mpr ⟨o, hm, rfl⟩
+
 /-! ### placement takes exactly offer + fee reserve -/
 
 theorem placeOrder_takes {cfg : Cfg} {s s' : State} {app user pair : Nat} {typ : OType} {buy : Bool}
